@@ -37,8 +37,8 @@ from harness import tlc
 SPEC_DIR = "/verif/specs/parse"
 SEED_DIR = "/verif/harness/c13_seeds"
 LEVEL = "exploration"
-REPO = os.environ.get("VERIF_REPO_PATH") or "/repo"   # root that contains the nemoguardrails package
-FILES_ROOT = "/repo"                                   # shipped .co files are always read from /repo
+from harness import REPO   # root that contains the nemoguardrails package (VERIF_REPO overrides)
+FILES_ROOT = REPO                                      # shipped .co files are read from the tree under test
 BUDGET_S = 10
 NWORKERS = 16
 
